@@ -5,6 +5,7 @@
 (* A schema is a descriptor: an ordered list of <<key, field>> where a     *)
 (* field is a persistent field of some built-in class (possibly a typed    *)
 (* list / dict, a nested schema, a config type made with make_type), a     *)
+(* custom field (a user's Field subclass with its own storage_type), a     *)
 (* virtual field, or an instance method with a signature descriptor        *)
 (*                                                                         *)
 (*   [params |-> << [n |-> name, k |-> kind, d |-> has default,            *)
@@ -15,13 +16,18 @@
 (*                                                                         *)
 (* Stub(schema, name) is the abstract content of the generated stub:       *)
 (*                                                                         *)
-(*   [class, nclasses, attrs, ctor, methods]                               *)
+(*   [class, nclasses, attrs, attrok, ctor, methods]                       *)
 (*                                                                         *)
 (* It is computed the way stubs.py does it (generate_stub: the properties  *)
 (* / attrs / methods partition, stubs.py:174-204; get_method_annotation:   *)
 (* the list of rendered parameters `items`, stubs.py:92-133) down to the   *)
 (* level of parameter-list TOKENS, and then read back with ParseParams, a  *)
-(* transcription of Python's grammar for parameter lists.  The property    *)
+(* transcription of Python's grammar for parameter lists.  Every token     *)
+(* that carries an annotation also carries the dotted names of the classes *)
+(* the annotation refers to: an annotation is an expression only if every  *)
+(* segment of every dotted name is an identifier (DottedOK) - which        *)
+(* "<locals>", part of the __qualname__ of a class defined in a function   *)
+(* body, is not.  The property                                             *)
 (* (C20_Valid, C20_Complete) is stated on the parsed result against the    *)
 (* schema descriptor, independently of how the tokens were produced.       *)
 (*                                                                         *)
@@ -65,6 +71,8 @@ SchemaF(fs)    == [kind |-> "schema", fields |-> fs]
 CTypeF(nm, fs) == [kind |-> "ctype", name |-> nm, fields |-> fs]
 VirtualF       == [kind |-> "virtual"]                  \* VirtualField(getter)
 VSetterF       == [kind |-> "vsetter"]                  \* VirtualField(getter, setter): still virtual
+\* a user's Field subclass with  storage_type = <the object of annotation kind st>
+CustomF(st)    == [kind |-> "custom", st |-> st]
 \* Schema(dynamic=True): configurations accept assignments to unknown keys
 IsDynamic(s)   == "dynamic" \in DOMAIN s /\ s.dynamic
 MethodF(sig)   == [kind |-> "method", sig |-> sig]
@@ -74,8 +82,24 @@ Sig(ps, r)     == [params |-> ps, ret |-> r]
 
 ParamKinds == {"posonly", "pos", "vararg", "kwonly", "varkw"}
 \* annotation kinds; "noann" = not annotated, "noret" = no return annotation
+\* Annotations over a class whose qualified name differs from its name: <<wrapper, class>>.
+\*   local  : a class defined in a function body   (__qualname__ "make_local.<locals>.Local")
+\*   nested : a class nested in another class      (__qualname__ "Outer.Inner")
+\* wrapper "" : the class itself, list : typing.List[C], opt : typing.Optional[C],
+\* dict : typing.Dict[str, C], pep585 : list[C], u604 : C | None
+QualAnn ==
+    [local       |-> <<"", "local">>,        nested       |-> <<"", "nested">>,
+     listlocal   |-> <<"list", "local">>,    listnested   |-> <<"list", "nested">>,
+     optlocal    |-> <<"opt", "local">>,     optnested    |-> <<"opt", "nested">>,
+     dictlocal   |-> <<"dict", "local">>,    dictnested   |-> <<"dict", "nested">>,
+     pep585local |-> <<"pep585", "local">>,  pep585nested |-> <<"pep585", "nested">>,
+     u604local   |-> <<"u604", "local">>,    u604nested   |-> <<"u604", "nested">>]
+QualKinds == DOMAIN QualAnn
+
 AnnKinds == {"noann", "int", "listint", "optstr", "class", "fwd", "none", "pep585", "ctype",
-             "union604", "callable", "literal", "newtype", "typevar", "config"}
+             "union604", "callable", "literal", "newtype", "typevar", "config"} \cup QualKinds
+\* what a custom field's storage_type may be
+StorageKinds == QualKinds \cup {"class", "listint"}
 
 \* ApplicationModeField(create_helpers=True).__setkey__ adds one virtual field per mode
 HelperKeys == <<"is_development_mode", "is_production_mode">>
@@ -126,20 +150,110 @@ SigWF(sig) ==
                                  /\ ps[j].k \in {"posonly", "pos"}) => ps[j].d
         /\ sig.ret \in AnnKinds \cup {"noret"}
 
+RECURSIVE FieldWF(_)
+FieldWF(f) ==
+    CASE f.kind = "custom" -> f.st \in StorageKinds
+      [] f.kind = "list"   -> FieldWF(f.item)
+      [] f.kind = "dict"   -> FieldWF(f.keyf) /\ FieldWF(f.valf)
+      [] f.kind = "method" -> SigWF(f.sig)
+      [] OTHER -> TRUE
+
 \* the function bound to a configuration: the first parameter is supplied
 BoundParams(sig) == Tail(sig.params)
+
+---------------------------------------------------------------------------
+(* class references in annotations.  This part belongs to the grammar: an annotation is an
+   expression only if every dotted name in it is one. *)
+\* Classes with a qualified name.  qual = __qualname__ split at the dots.
+ClassTable ==
+    [local  |-> [mod |-> "stubtypes", name |-> "Local", qual |-> <<"make_local", "<locals>", "Local">>],
+     nested |-> [mod |-> "stubtypes", name |-> "Inner", qual |-> <<"Outer", "Inner">>]]
+
+\* A dotted name  a.b.c  is an expression iff every segment is an identifier.  (Field keys,
+\* parameter, module and class names are identifiers by assumption; the one segment that is not
+\* is the "<locals>" Python puts into the __qualname__ of a class defined in a function body.)
+NotIdent == {"<locals>", ""}
+DottedOK(p) == p # <<>> /\ \A i \in DOMAIN p : p[i] \notin NotIdent
+RefsOK(refs) == \A i \in DOMAIN refs : DottedOK(refs[i])
+
+\* the class itself:  "%s.%s" % (__module__, __name__)
+DirectRef(c) == <<c.mod, c.name>>
+\* the class as an argument of a typing generic, a PEP 585 generic or a PEP 604 union: module and
+\* qualified name - where that is a dotted name; a function-local class has none: its bare name
+\* (which dotted name stands for such a class is the mirror's choice; that it is one is the grammar's)
+InnerRef(c) == IF DottedOK(c.qual) THEN <<c.mod>> \o c.qual ELSE <<c.name>>
+QualRef(a) == LET c == ClassTable[QualAnn[a][2]] IN IF QualAnn[a][1] = "" THEN DirectRef(c) ELSE InnerRef(c)
+\* ... and when the annotation object as a whole is the argument of the List[...] / Dict[...] that
+\* ListField / DictField build from the storage_type of the item field
+QualRefIn(a) == InnerRef(ClassTable[QualAnn[a][2]])
+
+\* the dotted names of the classes an annotation refers to.  (The rest of an annotation's text -
+\* typing.List[ ], the names of builtins and of the harness's module-level classes - is fixed and
+\* well-formed for every kind.)
+AnnRefs(a)   == IF a \in QualKinds THEN <<QualRef(a)>> ELSE <<>>
+AnnRefsIn(a) == IF a \in QualKinds THEN <<QualRefIn(a)>> ELSE <<>>
+
+\* dotted names of the classes the rendered type of a field refers to
+RECURSIVE TypeRefs(_)
+TypeRefsIn(f) == IF f.kind = "custom" THEN AnnRefsIn(f.st) ELSE TypeRefs(f)
+TypeRefs(f) ==
+    CASE f.kind = "custom" -> AnnRefs(f.st)
+      [] f.kind = "ctype"  -> << <<"cfgtypes", f.name>> >>
+      [] f.kind = "list"   -> IF f.item.kind = "nofield" THEN <<>> ELSE TypeRefsIn(f.item)
+      [] f.kind = "dict"   -> (IF f.keyf.kind = "nofield" THEN <<>> ELSE TypeRefsIn(f.keyf))
+                              \o (IF f.valf.kind = "nofield" THEN <<>> ELSE TypeRefsIn(f.valf))
+      [] OTHER -> <<>>
+
+\* the grammar rejects a class rendered from its qualified name when that contains "<locals>"
+ASSUME /\ ~DottedOK(<<ClassTable.local.mod>> \o ClassTable.local.qual)
+       /\ \A a \in QualKinds : RefsOK(AnnRefs(a)) /\ RefsOK(AnnRefsIn(a))
 
 ---------------------------------------------------------------------------
 (* annotation strings (get_annotation_typestr).  They are part of the mirror, not of the
    property: the harness reports a difference here as MODEL-DRIFT only. *)
 CTypeStr(nm) == "cfgtypes." \o nm
 
+RECURSIVE Dotted(_)
+Dotted(p) == IF Len(p) = 1 THEN p[1] ELSE p[1] \o "." \o Dotted(Tail(p))
+Wrap(w, str) ==
+    CASE w = ""       -> str
+      [] w = "list"   -> "typing.List[" \o str \o "]"
+      [] w = "opt"    -> "typing.Optional[" \o str \o "]"
+      [] w = "dict"   -> "typing.Dict[str, " \o str \o "]"
+      [] w = "pep585" -> "list[" \o str \o "]"
+      [] w = "u604"   -> str \o " | None"
+
+AnnStr(a) ==
+    CASE a \in QualKinds -> Wrap(QualAnn[a][1], Dotted(QualRef(a)))
+      [] a = "int" -> "int"
+      [] a = "listint" -> "typing.List[int]"
+      [] a = "optstr" -> "typing.Optional[str]"
+      [] a = "class" -> "stubtypes.Widget"
+      [] a = "fwd" -> "Widget"
+      [] a = "none" -> "None"
+      [] a = "pep585" -> "list[int]"
+      [] a = "ctype" -> "cfgtypes.AnnType"
+      [] a = "union604" -> "int | None"
+      [] a = "callable" -> "typing.Callable[[int], str]"
+      [] a = "literal" -> "typing.Literal['a']"
+      [] a = "newtype" -> "stubtypes.UserId"
+      [] a = "typevar" -> "T"
+      [] a = "config" -> "cincoconfig.core.Config"
+\* str() of the annotation object (as an argument of typing.List[...] / typing.Dict[...])
+AnnStrIn(a) == IF a \in QualKinds THEN Wrap(QualAnn[a][1], Dotted(QualRefIn(a))) ELSE AnnStr(a)
+\* annotation objects get_annotation_typestr has no branch for (get_retval_annotation swallows the
+\* error and the return annotation is dropped): none of the modelled kinds since the fix that
+\* renders PEP 604 unions, TypeVar and NewType
+Unrendered == {}
+
 RECURSIVE StorageStr(_)
 ItemStr(item) ==         \* ListField.__init__: List[field.storage_type] | List[cls] | List[type(field)]
     CASE item.kind = "schema" -> "cincoconfig.core.Schema"
       [] item.kind = "ctype"  -> CTypeStr(item.name)
+      [] item.kind = "custom" -> AnnStrIn(item.st)
       [] OTHER -> StorageStr(item)
-KVStr(f) == IF f.kind = "nofield" THEN "typing.Any" ELSE StorageStr(f)   \* DictField: AnyField()
+KVStr(f) == IF f.kind = "nofield" THEN "typing.Any"                      \* DictField: AnyField()
+            ELSE IF f.kind = "custom" THEN AnnStrIn(f.st) ELSE StorageStr(f)
 StorageStr(f) ==
     CASE f.kind \in StrKinds -> "str"
       [] f.kind \in {"int", "port"} -> "int"
@@ -155,31 +269,14 @@ StorageStr(f) ==
 TypeStr(f) ==
     CASE f.kind = "schema" -> "cincoconfig.core.Schema"
       [] f.kind = "ctype"  -> CTypeStr(f.name)
+      [] f.kind = "custom" -> AnnStr(f.st)
       [] OTHER -> StorageStr(f)
 
-AnnStr(a) ==
-    CASE a = "int" -> "int"
-      [] a = "listint" -> "typing.List[int]"
-      [] a = "optstr" -> "typing.Optional[str]"
-      [] a = "class" -> "stubtypes.Widget"
-      [] a = "fwd" -> "Widget"
-      [] a = "none" -> "None"
-      [] a = "pep585" -> "list[int]"
-      [] a = "ctype" -> "cfgtypes.AnnType"
-      [] a = "union604" -> "int | None"
-      [] a = "callable" -> "typing.Callable[[int], str]"
-      [] a = "literal" -> "typing.Literal['a']"
-      [] a = "newtype" -> "stubtypes.UserId"
-      [] a = "typevar" -> "T"
-      [] a = "config" -> "cincoconfig.core.Config"
-\* annotation objects get_annotation_typestr has no branch for (get_retval_annotation swallows the
-\* error and the return annotation is dropped): none of the modelled kinds since the fix that
-\* renders PEP 604 unions, TypeVar and NewType
-Unrendered == {}
 
 ---------------------------------------------------------------------------
 (* parameter-list tokens *)
-TName(n, ann) == [tk |-> "name", n |-> n, ann |-> ann]    \* ann = "" : bare name
+\* ann = "" : bare name; refs: the dotted names of the classes the annotation refers to
+TName(n, ann, refs) == [tk |-> "name", n |-> n, ann |-> ann, refs |-> refs]
 TSlash        == [tk |-> "slash"]
 TStar         == [tk |-> "star"]
 TVararg(n)    == [tk |-> "vararg", n |-> n]
@@ -193,7 +290,8 @@ MethodItems(sig) ==
         va      == Names({"vararg"})
         vk      == Names({"varkw"})
         kwo     == Names({"kwonly"})
-        Render(p) == TName(p.n, IF p.a # "noann" THEN AnnStr(p.a) ELSE "typing.Any")
+        Render(p) == IF p.a # "noann" THEN TName(p.n, AnnStr(p.a), AnnRefs(p.a))
+                     ELSE TName(p.n, "typing.Any", <<>>)
         \* if kwonlyargs: args.append("*" | "*varargs"); varargs = None; args += kwonlyargs
         items1  == [i \in DOMAIN args0 |-> Render(args0[i])]
                    \o (IF kwo = <<>> THEN <<>>
@@ -203,26 +301,30 @@ MethodItems(sig) ==
         items2  == items1 \o (IF kwo = <<>> /\ va # <<>> THEN <<TVararg(va[1].n)>> ELSE <<>>)
                           \o (IF vk # <<>> THEN <<TVarkw(vk[1].n)>> ELSE <<>>)
         \* items[0] = "self"
-        items3  == [items2 EXCEPT ![1] = TName("self", "")]
+        items3  == [items2 EXCEPT ![1] = TName("self", "", <<>>)]
         npo     == Len(Names({"posonly"}))
     IN  \* if posonly: items.insert(len(posonly), "/")
         IF npo = 0 THEN items3
         ELSE SubSeq(items3, 1, npo) \o <<TSlash>> \o SubSeq(items3, npo + 1, Len(items3))
 
 RetStr(sig) == IF sig.ret = "noret" \/ sig.ret \in Unrendered THEN "" ELSE AnnStr(sig.ret)
+\* " -> typestr": the dotted names in the return annotation
+RetRefs(sig) == IF sig.ret = "noret" \/ sig.ret \in Unrendered THEN <<>> ELSE AnnRefs(sig.ret)
 
 \* generate_stub: "def __init__(self, key: type, ...)" over attrs
 CtorItems(s) ==
     LET at == SelectSeq(FieldsOf(s), LAMBDA p : IsPersistent(p[2]))
-    IN  <<TName("self", "")>> \o [i \in DOMAIN at |-> TName(at[i][1], TypeStr(at[i][2]))]
+    IN  <<TName("self", "", <<>>)>> \o [i \in DOMAIN at |-> TName(at[i][1], TypeStr(at[i][2]), TypeRefs(at[i][2]))]
 
 ---------------------------------------------------------------------------
 (* Python's grammar for parameter lists, on tokens:
-     name* [ "/" ] name* [ "*" name+ | "*"name name* ] [ "**"name ]          *)
+     name* [ "/" ] name* [ "*" name+ | "*"name name* ] [ "**"name ]
+   where  name  is  NAME [ ":" expression ]                                  *)
 ParseStep(st, t) ==
     IF ~st.ok THEN st
     ELSE CASE t.tk = "name" ->
-                IF st.phase = "pos" THEN [st EXCEPT !.pos = Append(@, t.n)]
+                IF ~RefsOK(t.refs) THEN [st EXCEPT !.ok = FALSE]      \* the annotation is not an expression
+                ELSE IF st.phase = "pos" THEN [st EXCEPT !.pos = Append(@, t.n)]
                 ELSE IF st.phase = "kw" THEN [st EXCEPT !.kwonly = Append(@, t.n)]
                 ELSE [st EXCEPT !.ok = FALSE]
            [] t.tk = "slash" ->
@@ -270,7 +372,7 @@ ParamNames(pp) ==
 (* the abstract stub *)
 MethodOf(key, sig) ==
     LET pp == ParseParams(MethodItems(sig))
-    IN  [name |-> key, ok |-> pp.ok /\ HasReceiver(pp)] @@ NoReceiver(pp)
+    IN  [name |-> key, ok |-> pp.ok /\ HasReceiver(pp) /\ RefsOK(RetRefs(sig))] @@ NoReceiver(pp)
 
 Stub(s, cname) ==
     LET fs    == FieldsOf(s)
@@ -280,6 +382,8 @@ Stub(s, cname) ==
     IN  [class    |-> cname,
          nclasses |-> 1,
          attrs    |-> {props[i][1] : i \in DOMAIN props},
+         \* every attribute line is  NAME ":" expression
+         attrok   |-> \A i \in DOMAIN props : RefsOK(TypeRefs(props[i][2])),
          ctor     |-> [ok |-> cpp.ok /\ HasReceiver(cpp), params |-> ParamNames(NoReceiver(cpp))],
          methods  |-> {MethodOf(meths[i][1], meths[i][2].sig) : i \in DOMAIN meths}]
 
@@ -302,6 +406,7 @@ StubTypes(s) ==
 \* syntactically valid: one class, a well-formed constructor and well-formed methods
 P_Valid(x) ==
     /\ x.nclasses = 1
+    /\ x.attrok
     /\ x.ctor.ok
     /\ \A m \in x.methods : m.ok
     /\ \A m1, m2 \in x.methods : m1.name = m2.name => m1 = m2
@@ -347,7 +452,7 @@ StubFor(t) == Stub(schema, ClassFor(t))
 \* observable state: skeys = [k for k, _ in schema] (= get_fields(schema)), fresh = get_fields(schema())
 St   == [heap |-> heap, stdout |-> stdout, skeys |-> KeySeq(schema), fresh |-> KeySeq(schema)]
 
-SchemaWF(s) == \A p \in Range(FieldsOf(s)) : IsMethod(p[2]) => SigWF(p[2].sig)
+SchemaWF(s) == \A p \in Range(FieldsOf(s)) : FieldWF(p[2])
 
 InitWith(s) ==
     /\ schema = s
